@@ -22,6 +22,7 @@ EXPLANATION = (
     "(time+shift)/n_steps, shift = factor*pi/(4r) and output factor r*factor with r = c.real/n_steps (normal forms), "
     "both signs enumerated, the spliced sequence places the shifted step at exactly one position."
     ' Round 5: (D5) no cache keyed by Pauli terms; is_constant looks at the factors only.'
+    ' Round 6: the Hamiltonian parameter is never re-bound before its terms are listed (D2); the two positions compared to place the shift enumerate the same listing (D4).'
 )
 RULE_TEXT = "instances = guards, loops, call arguments (as polynomial normal forms) and composition expressions in the four functions of evolution.py; distinct by (rule, construct)"
 ASSUMPTIONS = [
